@@ -132,6 +132,8 @@ type World struct {
 	Sent  []SentMsg // all outbound messages so far
 	// Divergences between observed outcomes and model verdicts (information only).
 	Div []string
+	// Scratch is per-case generator memory (e.g. attestations signed earlier).
+	Scratch map[string]any
 }
 
 func NewWorld(g *GenSpec) (*World, error) {
